@@ -194,7 +194,8 @@ def _eval_slope(case):
         trivial = False
         # judged on the exponent at the smallest couplings of that pair (the local exponent may approach its
         # limit from below after a sign change of the difference)
-        info[f"min_exponent_margin_{nm}"] = last[-1] - demand
+        if last[-1] >= thr:
+            info[f"min_exponent_margin_{nm}"] = last[-1] - demand
         if last[-1] < thr:
             res.fail(
                 f"expanded_vs_exact/running/{nm}" if coupled else f"expanded_vs_exact/qcd={n}/{nm}",
@@ -204,7 +205,7 @@ def _eval_slope(case):
                 f"(difference must be of relative order lambda^{demand:g})",
             )
     margins = [v for k, v in info.items() if k.startswith("min_exponent_margin") and v is not None]
-    res.info = {"max_neg_exponent_margin": max([-m for m in margins], default=-99.0), "residuals": [None if r is None else list(r) for r in rs]}
+    res.info = {"max_exponent_shortfall_of_passing_cases_vs_integer_demand": max([-m for m in margins], default=-99.0), "residuals": [None if r is None else list(r) for r in rs]}
     res.nontrivial = not trivial
     res.outcome = f"slope/{'coupled' if coupled else 'qcd=%d' % n}/{'inconclusive' if inconclusive else 'trivial' if trivial else 'measured'}"
     return res
